@@ -8,7 +8,8 @@
 (* Processes: main (the calling goroutine), sender 0/1 (the two goroutines *)
 (* it starts), member 0/1 (the environment: the member registries' methods; *)
 (* outcome ok / fail; mode normal = returns whenever it likes, or           *)
-(* untilCancelled = returns only once its context is done), canceller and  *)
+(* untilCancelled = returns only once its context is done; the reader it   *)
+(* hands out closes cleanly or returns an error from Close), canceller and *)
 (* closer (the caller: cancels the parent context at any point, closes the *)
 (* returned reader at any point after the return).                         *)
 (*                                                                         *)
@@ -19,7 +20,7 @@
 (* that are observed at quiescence, so it is merged into the step.         *)
 (*                                                                         *)
 (* The configuration (outcomes, modes, style) is chosen in the initial     *)
-(* state, so one TLC run sweeps all 32 configurations.                     *)
+(* state, so one TLC run sweeps all 52 configurations.                     *)
 (***************************************************************************)
 EXTENDS Integers, Sequences, FiniteSets, TLC
 
@@ -33,6 +34,9 @@ variables
   out \in [M -> {"ok", "fail"}],                \* what member i answers
   mode \in [M -> {"normal", "untilCancelled"}],
   style \in {"reader", "resolve"},
+  \* does Close of the reader member i hands out return an error (only a member that
+  \* answers ok, asked for a reader, hands one out)
+  closeErr \in {f \in [M -> BOOLEAN] : \A i \in M : f[i] => (out[i] = "ok" /\ style = "reader")},
   parentCancelled = FALSE,                      \* the caller's context
   ctxCancelled = [q \in M |-> FALSE],           \* cancel_i() was called
   doneClosed = FALSE,                           \* close(done) (deferred: at return)
@@ -44,6 +48,7 @@ variables
   retOwner = -1,                                \* whose result (and cancel func) main returned
   parentAtRet = FALSE,                          \* ghost: was the parent cancelled at the return
   readerClosed = FALSE,                         \* the caller closed the returned reader
+  closeRet = "-",                               \* what that Close returned: "ok" | "err" (the member reader's error)
   h = <<>>;                                     \* ghost: the environment's actions in order
 
 define
@@ -136,12 +141,14 @@ CCancel:
 end process;
 
 \* The caller closes the reader it got: at any point after the return, or never.
-\* blobReader.Close: the member's reader is closed, then cancel_i() is called.
+\* blobReader.Close: the member's reader is closed and, whatever that Close returned,
+\* cancel_i() is called (defer); the reader's error is the caller's.
 process closer = 3
 begin
 CClose:
   await pc[1] = "Done" /\ style = "reader" /\ ret \in Oks;
   readerClosed := TRUE;
+  closeRet := IF closeErr[retOwner] THEN "err" ELSE "ok";
   closed[retOwner] := TRUE;
   ctxCancelled[retOwner] := TRUE;
   h := Rec("close");
@@ -149,9 +156,9 @@ end process;
 
 end algorithm; *)
 \* BEGIN TRANSLATION
-VARIABLES pc, out, mode, style, parentCancelled, ctxCancelled, doneClosed, 
-          taken, memberReturned, opened, closed, ret, retOwner, parentAtRet, 
-          readerClosed, h
+VARIABLES pc, out, mode, style, closeErr, parentCancelled, ctxCancelled, 
+          doneClosed, taken, memberReturned, opened, closed, ret, retOwner, 
+          parentAtRet, readerClosed, closeRet, h
 
 (* define statement *)
 CtxDone(i) == parentCancelled \/ ctxCancelled[i]
@@ -161,9 +168,9 @@ Rec(x) == IF Hist THEN Append(h, x) ELSE h
 
 VARIABLES me, sm, got
 
-vars == << pc, out, mode, style, parentCancelled, ctxCancelled, doneClosed, 
-           taken, memberReturned, opened, closed, ret, retOwner, parentAtRet, 
-           readerClosed, h, me, sm, got >>
+vars == << pc, out, mode, style, closeErr, parentCancelled, ctxCancelled, 
+           doneClosed, taken, memberReturned, opened, closed, ret, retOwner, 
+           parentAtRet, readerClosed, closeRet, h, me, sm, got >>
 
 ProcSet == ({10, 11}) \cup ({20, 21}) \cup {1} \cup {2} \cup {3}
 
@@ -171,6 +178,7 @@ Init == (* Global variables *)
         /\ out \in [M -> {"ok", "fail"}]
         /\ mode \in [M -> {"normal", "untilCancelled"}]
         /\ style \in {"reader", "resolve"}
+        /\ closeErr \in {f \in [M -> BOOLEAN] : \A i \in M : f[i] => (out[i] = "ok" /\ style = "reader")}
         /\ parentCancelled = FALSE
         /\ ctxCancelled = [q \in M |-> FALSE]
         /\ doneClosed = FALSE
@@ -182,6 +190,7 @@ Init == (* Global variables *)
         /\ retOwner = -1
         /\ parentAtRet = FALSE
         /\ readerClosed = FALSE
+        /\ closeRet = "-"
         /\ h = <<>>
         (* Process member *)
         /\ me = [self \in {10, 11} |-> self - 10]
@@ -207,9 +216,10 @@ MRun(self) == /\ pc[self] = "MRun"
                     ELSE /\ TRUE
                          /\ h' = h
               /\ pc' = [pc EXCEPT ![self] = "Done"]
-              /\ UNCHANGED << out, mode, style, parentCancelled, ctxCancelled, 
-                              doneClosed, taken, closed, ret, retOwner, 
-                              parentAtRet, readerClosed, me, sm, got >>
+              /\ UNCHANGED << out, mode, style, closeErr, parentCancelled, 
+                              ctxCancelled, doneClosed, taken, closed, ret, 
+                              retOwner, parentAtRet, readerClosed, closeRet, 
+                              me, sm, got >>
 
 member(self) == MRun(self)
 
@@ -224,9 +234,10 @@ SSelect(self) == /\ pc[self] = "SSelect"
                                   /\ UNCHANGED closed
                        /\ ctxCancelled' = [ctxCancelled EXCEPT ![sm[self]] = TRUE]
                  /\ pc' = [pc EXCEPT ![self] = "Done"]
-                 /\ UNCHANGED << out, mode, style, parentCancelled, doneClosed, 
-                                 taken, memberReturned, opened, ret, retOwner, 
-                                 parentAtRet, readerClosed, h, me, sm, got >>
+                 /\ UNCHANGED << out, mode, style, closeErr, parentCancelled, 
+                                 doneClosed, taken, memberReturned, opened, 
+                                 ret, retOwner, parentAtRet, readerClosed, 
+                                 closeRet, h, me, sm, got >>
 
 sender(self) == SSelect(self)
 
@@ -254,8 +265,9 @@ MSel1 == /\ pc[1] = "MSel1"
          /\ IF ret' # "pending"
                THEN /\ pc' = [pc EXCEPT ![1] = "Done"]
                ELSE /\ pc' = [pc EXCEPT ![1] = "MSel2"]
-         /\ UNCHANGED << out, mode, style, parentCancelled, memberReturned, 
-                         opened, closed, readerClosed, h, me, sm >>
+         /\ UNCHANGED << out, mode, style, closeErr, parentCancelled, 
+                         memberReturned, opened, closed, readerClosed, 
+                         closeRet, h, me, sm >>
 
 MSel2 == /\ pc[1] = "MSel2"
          /\ \/ /\ \E j \in {k \in M : Ready(k)}:
@@ -275,8 +287,9 @@ MSel2 == /\ pc[1] = "MSel2"
                /\ parentAtRet' = TRUE
                /\ UNCHANGED <<ctxCancelled, taken, retOwner, got>>
          /\ pc' = [pc EXCEPT ![1] = "Done"]
-         /\ UNCHANGED << out, mode, style, parentCancelled, memberReturned, 
-                         opened, closed, readerClosed, h, me, sm >>
+         /\ UNCHANGED << out, mode, style, closeErr, parentCancelled, 
+                         memberReturned, opened, closed, readerClosed, 
+                         closeRet, h, me, sm >>
 
 main == MSel1 \/ MSel2
 
@@ -284,22 +297,24 @@ CCancel == /\ pc[2] = "CCancel"
            /\ parentCancelled' = TRUE
            /\ h' = Rec("cancel")
            /\ pc' = [pc EXCEPT ![2] = "Done"]
-           /\ UNCHANGED << out, mode, style, ctxCancelled, doneClosed, taken, 
-                           memberReturned, opened, closed, ret, retOwner, 
-                           parentAtRet, readerClosed, me, sm, got >>
+           /\ UNCHANGED << out, mode, style, closeErr, ctxCancelled, 
+                           doneClosed, taken, memberReturned, opened, closed, 
+                           ret, retOwner, parentAtRet, readerClosed, closeRet, 
+                           me, sm, got >>
 
 canceller == CCancel
 
 CClose == /\ pc[3] = "CClose"
           /\ pc[1] = "Done" /\ style = "reader" /\ ret \in Oks
           /\ readerClosed' = TRUE
+          /\ closeRet' = IF closeErr[retOwner] THEN "err" ELSE "ok"
           /\ closed' = [closed EXCEPT ![retOwner] = TRUE]
           /\ ctxCancelled' = [ctxCancelled EXCEPT ![retOwner] = TRUE]
           /\ h' = Rec("close")
           /\ pc' = [pc EXCEPT ![3] = "Done"]
-          /\ UNCHANGED << out, mode, style, parentCancelled, doneClosed, taken, 
-                          memberReturned, opened, ret, retOwner, parentAtRet, 
-                          me, sm, got >>
+          /\ UNCHANGED << out, mode, style, closeErr, parentCancelled, 
+                          doneClosed, taken, memberReturned, opened, ret, 
+                          retOwner, parentAtRet, me, sm, got >>
 
 closer == CClose
 
@@ -354,6 +369,11 @@ WinnerCtxLiveUntilClose ==
   (style = "reader" /\ Winner # -1) =>
      /\ ~readerClosed => (~ctxCancelled[Winner] /\ ~closed[Winner])
      /\ readerClosed => (ctxCancelled[Winner] /\ closed[Winner])
+\* the error of the member reader's Close is passed through to the caller (and, by
+\* WinnerCtxLiveUntilClose, does not keep the context from being cancelled)
+ClosePassesError ==
+  /\ readerClosed => (Winner # -1 /\ closeRet = (IF closeErr[Winner] THEN "err" ELSE "ok"))
+  /\ ~readerClosed => closeRet = "-"
 \* resolve-style reads cancel at return: nothing received stays uncancelled
 ResolveCancelsAtReturn ==
   (style = "resolve" /\ MainDone) => \A k \in M : taken[k] => ctxCancelled[k]
@@ -365,7 +385,7 @@ ReceivedAndDroppedIsCancelled ==
 ClosedWasOpened == \A k \in M : closed[k] => opened[k]
 
 Inv == TypeOK /\ ReturnsFirstSuccess /\ ErrorOnlyIfBothFailOrCancelled /\ WinnerCtxLiveUntilClose
-       /\ ResolveCancelsAtReturn /\ ReceivedAndDroppedIsCancelled /\ ClosedWasOpened
+       /\ ResolveCancelsAtReturn /\ ReceivedAndDroppedIsCancelled /\ ClosedWasOpened /\ ClosePassesError
 
 \* liveness (under Spec: weak fairness of main, senders, members)
 \* "every reader opened on the member that was not chosen is closed"
